@@ -50,11 +50,31 @@ def _mentions_func(o, name):
     return False
 
 
+MULTI_MAX_SITES = 8
+MULTI_MAX_INSTS = 200
+
+
+def _calls_itself(funcs, name):
+    return any(ins["o"] == "call" and ins.get("callee") == name for b in funcs[name]["blocks"] for ins in b["insts"])
+
+
 KEEP_PREFIXES = ("find_closer_entry_", "hashtable_", "wrap_pos", "hash_func_", "hs_hash", "hop_range_", "is_equal_")
+
+
+def _reference_names():
+    p = os.path.join(os.path.dirname(os.path.dirname(os.path.abspath(__file__))), "reference_functions.txt")
+    try:
+        with open(p) as fh:
+            return set(l.strip() for l in fh if l.strip())
+    except OSError:
+        return None
 
 
 def inline_all(facts, keep):
     funcs = facts["functions"]
+    reference = _reference_names()
+    if reference is None:
+        reference = set(d.get("srcname") or n for n, d in funcs.items())   # no list: nothing counts as new
     own_names = [n for n, d in funcs.items() if _own(d)]
     taken = set()
 
@@ -98,12 +118,43 @@ def inline_all(facts, keep):
             if src in keep or src.startswith(KEEP_PREFIXES) or gname in taken or gd.get("vararg"):
                 continue
             ss = sites.get(gname, [])
+            size = sum(len(b["insts"]) for b in gd["blocks"])
             if len(ss) != 1:
+                # a helper that does not exist on the reference tree (sa/reference_functions.txt) and is shared by a few own
+                # callers - the usual result of "extract the duplicated tail": a copy goes into every caller. Functions of the
+                # reference tree keep their identity: the rules' summaries are stated over them.
+                if src not in reference and 2 <= len(ss) <= MULTI_MAX_SITES and size <= MULTI_MAX_INSTS and gname not in ss and \
+                        all(c in funcs and _own(funcs[c]) for c in ss) and not _calls_itself(funcs, gname):
+                    for cname in list(ss):
+                        while True:
+                            loc = None
+                            for b in funcs[cname]["blocks"]:
+                                for ins in b["insts"]:
+                                    if ins["o"] == "call" and ins.get("callee") == gname:
+                                        loc = (b["id"], ins["i"])
+                            if loc is None:
+                                break
+                            for b in gd["blocks"]:
+                                for ins in b["insts"]:
+                                    if ins["o"] == "call" and "callee" in ins:
+                                        sites.setdefault(ins["callee"], []).append(cname)
+                            _splice(funcs[cname], gd, loc[0], loc[1])
+                            out.append((src, funcs[cname].get("srcname") or cname))
+                    for b in gd["blocks"]:
+                        for ins in b["insts"]:
+                            if ins["o"] == "call" and "callee" in ins:
+                                lst = sites.get(ins["callee"], [])
+                                while gname in lst:
+                                    lst.remove(gname)
+                    del funcs[gname]
+                    own_names.remove(gname)
+                    sites.pop(gname, None)
+                    changed = True
                 continue
             cname = ss[0]
             if cname == gname or cname not in funcs or not _own(funcs[cname]):
                 continue
-            if sum(len(b["insts"]) for b in gd["blocks"]) > 400:
+            if size > 400:
                 continue
             # locate the call
             loc = None
@@ -238,3 +289,63 @@ def _splice(fd, gd, cb, cid):
                 if key in ins:
                     ins[key] = [(["bb", remap[o[1]]] if isinstance(o, list) and o and o[0] == "bb" else o) for o in ins[key]]
     fd["blocks"] = order
+
+
+def lower_selects(facts):
+    """`x = select c, a, b` (clang emits it for simple ternaries even at -O0) becomes a diamond: the block is split, the two
+    arms are empty blocks and x is a phi in the join block. Afterwards a ternary and the if/else it replaced give the same
+    paths, atoms and phi-resolved constants to every rule."""
+    n = 0
+    for fname, fd in facts["functions"].items():
+        if not _own(fd):
+            continue
+        guard = 0
+        while guard < 200:
+            guard += 1
+            hit = None
+            for b in fd["blocks"]:
+                for k, ins in enumerate(b["insts"]):
+                    if ins["o"] == "select" and len(ins.get("a", [])) == 3:
+                        hit = (b, k, ins)
+                        break
+                if hit:
+                    break
+            if not hit:
+                break
+            b, k, sel = hit
+            n += 1
+            max_id = max([p["id"] for p in fd["params"]] + [i["i"] for bb in fd["blocks"] for i in bb["insts"]] + [0])
+            max_bb = max(bb["id"] for bb in fd["blocks"])
+            tb, fb, jb = max_bb + 1, max_bb + 2, max_bb + 3
+            head = b["insts"][:k]
+            tail = b["insts"][k + 1:]
+            br = {"i": max_id + 1, "o": "br", "a": [sel["a"][0]], "succ": [tb, fb]}
+            if "l" in sel:
+                br["l"] = sel["l"]
+            b["insts"] = head + [br]
+            tblk = {"id": tb, "insts": [{"i": max_id + 2, "o": "br", "succ": [jb]}]}
+            fblk = {"id": fb, "insts": [{"i": max_id + 3, "o": "br", "succ": [jb]}]}
+            phi = {"i": sel["i"], "o": "phi", "t": sel.get("t"), "inc": [[sel["a"][1], tb], [sel["a"][2], fb]]}
+            for key in ("l", "n"):
+                if key in sel:
+                    phi[key] = sel[key]
+            jblk = {"id": jb, "insts": [phi] + tail}
+            # successors' phis that named the old block now come from the join block
+            t = tail[-1] if tail else None
+            succ_ids = set()
+            if t is not None:
+                succ_ids |= set(t.get("succ", []) or [])
+                succ_ids |= set(x for _, x in (t.get("cases") or []))
+                if "default" in t:
+                    succ_ids.add(t["default"])
+            for bb in fd["blocks"]:
+                if bb["id"] in succ_ids:
+                    for ins in bb["insts"]:
+                        if ins["o"] != "phi":
+                            break
+                        for inc in ins["inc"]:
+                            if inc[1] == b["id"]:
+                                inc[1] = jb
+            fd["blocks"].extend([tblk, fblk, jblk])
+    facts.setdefault("meta", {})["selects_lowered"] = n
+    return n
